@@ -18,12 +18,15 @@ MANIFEST_ENTRY = {
             "the positions that end a token path beginning a sentential form of the start symbol, for every grammar "
             "and input once its charts saturate (C10_viable_ends_correct); over a validated conflict-free table the "
             "deterministic driver never reports an error at a token that could extend a sentence prefix "
-            "(C10_not_early_when_deterministic). Per non-sentence: exception type, "
+            "(C10_not_early_when_deterministic), and over every table with sound item sets what the LR driver -- and every "
+            "path of the nondeterministic automaton -- has read begins a sentential form (C10_not_late). "
+            "Per non-sentence: exception type, "
             "position vs that verified oracle (end of the longest viable token prefix + layout), "
             "LR = GLR and LALR = SLR positions, line/column vs the model, end-of-file wording, rendering, "
             "symbols_expected vs the spec's next-terminal set",
-    "note": "trusted: Lean kernel; 'not late' (the tokens before the reported position begin a sentence), the GLR "
-            "positions and the expected set are decided on the explored scope against the verified oracle; the "
+    "note": "trusted: Lean kernel; GLR's reported position and the expected set are decided on the explored scope "
+            "against the verified oracle; 'begins a sentential form' becomes 'begins a sentence' under the property's "
+            "productivity assumption (informal); the "
             "next-terminal oracle applies the verified prefix oracle to an extended input whose well-formedness is "
             "not proved; LR/scanner models validated by correspondence",
     "technique": "Lean 4 proof (driver invariant, line/column inverse, verified viable-prefix oracle) + oracle comparison on implementation output",
@@ -31,7 +34,7 @@ MANIFEST_ENTRY = {
 
 PROP = "C10"
 LEVEL = "proof"
-THEOREMS = ["C10_lr_error_position", "C10_linecol_inverse", "C10_viable_ends_correct", "C10_viable_ends_correct_on_decoded_data", "C10_not_early_when_deterministic"]
+THEOREMS = ["C10_lr_error_position", "C10_linecol_inverse", "C10_viable_ends_correct", "C10_viable_ends_correct_on_decoded_data", "C10_not_early_when_deterministic", "C10_not_late", "C10_every_path_reads_viable_prefixes"]
 META = {
     "rule": "cases = (productive grammar, LR|GLR, LALR|SLR, non-sentence input incl. empty string, trailing layout, "
             "multi-line); non-trivial = rejected input with error position > 0 or at end of input after >= 1 "
@@ -40,6 +43,20 @@ META = {
     "trusted_base": ["Spec/Viable.lean executable spec (unproved)"],
     "assumptions": ["all nonterminals productive (generator guarantees it)"],
 }
+
+
+def items_prefix_len(enc):
+    """Length of the item-set part of an `enc_items` encoding (without the FIRST data)."""
+    i = 0
+    nstates = enc[i]
+    i += 1
+    for _ in range(nstates):
+        k = enc[i]
+        i += 1
+        for _ in range(k):
+            nla = enc[i + 2]
+            i += 3 + nla
+    return i
 
 
 def units(tier):
@@ -216,9 +233,12 @@ def run_unit(u):
                 # hypotheses of C10_not_early_when_deterministic on the deterministic LR tables
                 qval = None
                 qdets = []
+                b.add("table", enc_table(num, p.table))
+                # hypothesis of C10_not_late / C10_every_path_reads_viable_prefixes: sound item sets, every table
+                items_enc = enc_items(num, p.table, tname == "LALR", 1)
+                qsound = (b.add("wf"), b.add("lrsound", items_enc[:items_prefix_len(items_enc)]))
                 if det and pname == "LR":
-                    b.add("table", enc_table(num, p.table))
-                    qval = (b.add("wf"), b.add("lrvalid", enc_items(num, p.table, tname == "LALR", 1)))
+                    qval = (b.add("wf"), b.add("lrvalid", items_enc))
                 checks = []
                 timeouts = 0
                 for text in inputs:
@@ -287,6 +307,12 @@ def run_unit(u):
                     checks.append((case, pos, line, col, qv, ql, exp, skip_table(p, text)))
                 out = b.run()
                 st["traces"] += len(checks)
+                if out[qsound[0]] != "wf 1" or out[qsound[1]] != "lrsound 1":
+                    res["disagreements"].append({"case": {"grammar": gtxt, "tables": tname, "parser": pname},
+                                                 "what": "hypotheses of C10_not_late fail (wf / sound item sets)",
+                                                 "model": (out[qsound[0]] + " / " + out[qsound[1]])[:300]})
+                else:
+                    bump(st, "tables_with_sound_items")
                 if qval is not None:
                     if out[qval[0]] != "wf 1" or out[qval[1]] != "lrvalid 1":
                         res["disagreements"].append({"case": {"grammar": gtxt, "tables": tname},
